@@ -8,6 +8,11 @@ import json, os, subprocess, sys, shutil, re
 FLAKY = ("test_add_different_scale_points", "test_add_same_scale_points", "test_sig_verify", "test_p192_mult_tests",
          "test_multithreading_with_interrupts", "test_add_one_scaled_point")
 SEEDED = "/verif/seeded"
+ROUND = int(os.environ.get("ROUND", "1"))
+
+
+def dname(pid, k):
+    return "%s_m%d" % (pid, k) if ROUND == 1 else "%s_r%dm%d" % (pid, ROUND, k)
 
 
 def sh(cmd, cwd=None, timeout=3000):
@@ -25,7 +30,7 @@ def confirm(pid, k):
     wt = "/tmp/mut_%s" % pid
     out = os.path.join(wt, "out")
     diff, demo = os.path.join(out, "m%d.diff" % k), os.path.join(out, "m%d_demo.py" % k)
-    res = {"property": pid, "mutant": "m%d" % k}
+    res = {"property": pid, "mutant": "m%d" % k, "round": ROUND}
     sh("git checkout -- . && git clean -fdq -e out", cwd=wt)
     res["demo_clean_rc"] = sh("/venv/bin/python %s %s" % (demo, wt), cwd=out)[0]
     base = failing_ids(wt)
@@ -46,26 +51,34 @@ def confirm(pid, k):
 
 
 def detect(pid, k, checks):
-    diff = "/tmp/mut_%s/out/m%d.diff" % (pid, k)
-    assert sh("git diff --quiet", cwd="/repo")[0] == 0, "repo not clean"
-    rc, o = sh("git apply %s" % diff, cwd="/repo")
+    """Apply the change to a scratch worktree of /repo's HEAD and run the quick checks against it (VERIF_REPO), evidence and
+    replays redirected to a scratch directory (VERIF_OUT); equivalent to `git -C /repo apply` + check + `git checkout -- .`,
+    but leaves /repo alone so that several changes can be evaluated in parallel."""
+    import tempfile
+    diff = os.path.join(SEEDED, dname(pid, k), "patch.diff")
+    wt = tempfile.mkdtemp(prefix="det_%s_m%d_" % (pid, k))
+    os.rmdir(wt)
+    rc, o = sh("git -C /repo worktree add -q --detach %s HEAD" % wt)
     out = {}
-    if rc != 0:
-        return {"error": "diff does not apply to /repo: " + o[-200:]}
     try:
+        rc, o = sh("git apply %s" % diff, cwd=wt)
+        if rc != 0:
+            return {"error": "diff does not apply to /repo HEAD: " + o[-200:]}
+        scratch = tempfile.mkdtemp(prefix="detout_")
         for c in checks:
-            rc, o = sh("bin/check %s --tier quick" % c, cwd="/verif")
+            rc, o = sh("VERIF_REPO=%s VERIF_OUT=%s bin/check %s --tier quick" % (wt, scratch, c), cwd="/verif")
             viol = [l for l in o.splitlines() if l.strip().startswith("violation:")]
             out[c] = {"exit": rc, "violation_lines": len([l for l in o.splitlines() if l.startswith("VIOLATION")]),
-                      "first": viol[0].strip()[:300] if viol else "", "tail": o[-300:] if rc == 2 else ""}
+                      "first": viol[0].strip()[:300] if viol else "", "tail": o[-500:] if rc == 2 else ""}
+        shutil.rmtree(scratch, ignore_errors=True)
     finally:
-        sh("git checkout -- .", cwd="/repo")
+        sh("git -C /repo worktree remove --force %s" % wt)
     return out
 
 
 def main():
     step, pid, k = sys.argv[1], sys.argv[2], int(sys.argv[3])
-    d = os.path.join(SEEDED, "%s_m%d" % (pid, k))
+    d = os.path.join(SEEDED, dname(pid, k))
     os.makedirs(d, exist_ok=True)
     mp = os.path.join(d, "meta.json")
     meta = json.load(open(mp)) if os.path.exists(mp) else {}
